@@ -38,6 +38,7 @@ CONSTS = "CONSTANTS Keys = {1,2,3,4,5}\nVals = {1,2,3}\n"
 MC_CONSTS = "CONSTANTS Keys = {1,2,3}\nVals = {1,2}\n"
 MC_CONSTS_SMALL = "CONSTANTS Keys = {1,2}\nVals = {1,2}\n"
 D_QUICK, D_THOROUGH = 4, 5
+QUICK_SAMPLE = 12000
 SIM_QUICK = ((6, 60), (7, 60))            # (depth, random walks)
 SIM_THOROUGH = ((6, 2000), (7, 2000))
 CASE_TIMEOUT = 20.0                    # seconds per case (alarm inside the worker)
@@ -637,6 +638,14 @@ def main(argv_tier=None, replay_path=None):
         hs, r = generate(D, lifecycle, consts=consts)
         gen_runs["exhaustive D=%d %s" % (D, kind)] = {"histories": len(hs), "states": r.distinct, "transitions": r.generated,
                                                       "universe": " ".join(consts.split()[1:])}
+        if quick and len(hs) > QUICK_SAMPLE:
+            # quick tier: every history of depth D-1 plus a seeded sample of the depth-D tree (thorough replays all of it)
+            full = len(hs)
+            hs = random.Random(seed() + 2020).sample(hs, QUICK_SAMPLE)
+            hs3, r3 = generate(D - 1, lifecycle, consts=consts)
+            gen_runs["exhaustive D=%d %s" % (D, kind)]["replayed_sample"] = len(hs)
+            gen_runs["exhaustive D=%d %s" % (D - 1, kind)] = {"histories": len(hs3), "states": r3.distinct, "transitions": r3.generated}
+            hs = hs3 + hs
         for i in range(0, len(hs), CHUNK):
             cs = mk(kind, hs[i:i + CHUNK], "tlc-exhaustive")
             process(cs, tally, want_samples=(cs[len(cs) // 3]["cid"],) if i == 0 else ())
